@@ -67,12 +67,20 @@ func cmdFn(args []string) {
 	}
 	eng := newEngine()
 	t0 := time.Now()
-	if err := eng.load([]string{"./" + args[0]}, nil); err != nil {
+	var pats []string
+	for _, rel := range contractPackages(eng.verif) {
+		pats = append(pats, "./"+rel)
+	}
+	pats = append(pats, depPackages(eng.verif)...)
+	if err := eng.load(pats, nil); err != nil {
 		fmt.Fprintln(os.Stderr, "load:", err)
 		os.Exit(2)
 	}
 	fmt.Printf("loaded in %.1fs\n", time.Since(t0).Seconds())
 	p := eng.pkgs[modPath+"/"+args[0]]
+	if p == nil {
+		p = eng.pkgs[args[0]]
+	}
 	if p == nil || p.cf == nil {
 		fmt.Fprintln(os.Stderr, "no package / contract file for", args[0])
 		os.Exit(2)
